@@ -144,6 +144,11 @@ class Family:
             return (f"class {n}(SerializableType):\n" + common +
                     "    def _serialize(self):\n        return [self.a, self.b]\n"
                     "    @classmethod\n    def _deserialize(cls, value):\n        a, b = value\n        return cls(int(a), str(b))\n")
+        if d["flavour"] == "annotations-list":
+            # hands out a list it OWNS; the annotated wire type has conversion-free elements
+            return (f"class {n}(SerializableType, use_annotations=True):\n" + common.replace("hash((self.a, self.b))", "hash((tuple(self.a), self.b))") +
+                    "    def _serialize(self) -> Tuple[List[int], int]:\n        return (self.a, self.b)\n"
+                    "    @classmethod\n    def _deserialize(cls, value: Tuple[List[int], int]):\n        return cls(*value)\n")
         return (f"class {n}(SerializableType, use_annotations=True):\n" + common +
                 "    def _serialize(self) -> Tuple[datetime.date, int]:\n        return (self.a, self.b)\n"
                 "    @classmethod\n    def _deserialize(cls, value: Tuple[datetime.date, int]):\n        return cls(*value)\n")
